@@ -244,6 +244,7 @@ def drive(watch, out, rng, spec, tier):
             step("RichSwnmEditor.add_switches", RichSwnmEditor().add_switches, sws, swnm)
             step("RichSwnmEditor.add_switches (set)", RichSwnmEditor().add_switches, set(sws), swnm)
         if wav is not None:
+            step("RichWavEditor.add_wav_files (paths with forward slashes)", RichWavEditor().add_wav_files, ["staredit/wav/alarm.wav", "staredit\\wav\\siren.wav", "x/y.wav"], wav)
             w2 = step("RichWavEditor.add_wav_files", RichWavEditor().add_wav_files, ["a.wav", "b.wav", "a.wav"], wav)
             if w2 is not None:
                 step("RichWavEditor.add_wav_files (again)", RichWavEditor().add_wav_files, ["c.wav"], w2)
@@ -271,6 +272,27 @@ def drive(watch, out, rng, spec, tier):
             n2 = step("Rich%sEditor.upsert_all_unit_settings" % ("Unis" if isinstance(units, edit_h_unis()[0]) else "Unix"), ed.upsert_all_unit_settings, us, units)
             if n2 is not None:
                 cur = step("RichChkEditor.replace_chk_section (units)", RichChkEditor().replace_chk_section, n2, cur) or cur
+        # the optional second argument of encode_chk: a metadata lookup whose keys match PlayWav paths exactly,
+        # in another letter case, or not at all (the save may raise; the lookup must come back unchanged)
+        if wav is not None and trig is not None:
+            from richchk.model.mpq.stormlib.wav.stormlib_wav import StormLibWav
+            from richchk.model.richchk.trig.actions.play_wav_action import PlayWavAction
+            from richchk.model.richchk.trig.conditions.always_condition import AlwaysCondition
+            from richchk.model.richchk.trig.player_id import PlayerId
+            from richchk.model.richchk.trig.rich_trigger import RichTrigger
+            from richchk.model.richchk.wav.rich_wav_metadata_lookup import RichWavMetadataLookup
+
+            paths = ["staredit\\wav\\Alarm.WAV", "staredit\\wav\\exact.wav", "staredit\\wav\\missing.wav"]
+            wsec = step("RichWavEditor.add_wav_files (for PlayWav)", RichWavEditor().add_wav_files, paths[:2], find(cur, RichWavSection))
+            for variant, keys in (("case-variant key", ["staredit\\wav\\alarm.wav", paths[1]]), ("exact keys", paths[:2])):
+                lookup = RichWavMetadataLookup(_metadata_by_wav_path={k: StormLibWav(k, 1234) for k in keys})
+                acts = [PlayWavAction(_path_to_wav_in_mpq=p, _duration_ms=None) for p in (paths[:1] if variant.startswith("case") else paths[:2])]
+                t = RichTrigger(_conditions=[AlwaysCondition()], _actions=acts, _players={PlayerId.PLAYER_1})
+                tsec = find(cur, RichTrigSection)
+                if wsec is not None and tsec is not None:
+                    c2 = RichChkEditor().replace_chk_section(wsec, RichChkEditor().replace_chk_section(RichTrigEditor.add_triggers([t], tsec), cur))
+                    watch.remember("wav metadata lookup (%s)" % variant, lookup)
+                    step("RichChkIo.encode_chk (with wav_metadata_lookup, %s)" % variant, RichChkIo().encode_chk, c2, lookup)
         d3 = step("RichChkIo.encode_chk (edited)", RichChkIo().encode_chk, cur)
         if d3 is not None:
             b3 = step("ChkIo.encode_chk_to_bytes (edited)", ChkIo().encode_chk_to_bytes, d3)
